@@ -781,6 +781,45 @@ func (d *deepView) streamReads(stream *ssa.Parameter) (reads []streamRead, compl
 	return reads, complete
 }
 
+// constantAlternative: the value is, or can be (a phi edge, an argument of
+// min/max), a positive constant.
+func constantAlternative(v ssa.Value, depth int) (int64, bool) {
+	if depth > 6 || v == nil {
+		return 0, false
+	}
+	v = ir.StripConv(v)
+	if k, isK := ir.ConstInt(v); isK {
+		return k, k > 0
+	}
+	switch x := v.(type) {
+	case *ssa.Phi:
+		for _, e := range x.Edges {
+			if k, ok := constantAlternative(e, depth+1); ok {
+				return k, true
+			}
+		}
+	case *ssa.Call:
+		if id := ir.CallID(x); id == "builtin.min" || id == "builtin.max" {
+			for _, a := range x.Call.Args {
+				if k, ok := constantAlternative(a, depth+1); ok {
+					return k, true
+				}
+			}
+		}
+	case *ssa.UnOp:
+		if a, isA := x.X.(*ssa.Alloc); isA && x.Op == token.MUL {
+			for _, r := range *a.Referrers() {
+				if st, isSt := r.(*ssa.Store); isSt && st.Addr == ssa.Value(a) {
+					if k, ok := constantAlternative(st.Val, depth+1); ok {
+						return k, true
+					}
+				}
+			}
+		}
+	}
+	return 0, false
+}
+
 // judgeReadShape (F7): the variable file is parsed as 4 little-endian attribute
 // bytes followed by the remainder; success only if both reads succeed.
 func (c *Ctx) judgeReadShape(fn *ssa.Function) {
@@ -792,6 +831,34 @@ func (c *Ctx) judgeReadShape(fn *ssa.Function) {
 	if streamP == nil || sizeP == nil {
 		c.R.Undecf("F7.read", fname, "attrs-then-rest", c.Pos(fn.Pos()), what, "the parser does not take (io.Reader, size int)")
 		return
+	}
+	// no fixed cap: a bounded view of the file (io.LimitReader, io.CopyN, a
+	// LimitedReader) whose bound can be a constant cuts every longer value short
+	for _, di := range dv.order {
+		call, isC := di.i.(*ssa.Call)
+		if !isC {
+			continue
+		}
+		var lim ssa.Value
+		switch ir.CallID(call) {
+		case "io.LimitReader":
+			if r := dv.objectOf(call.Call.Args[0], di.fr); r.fr == dv.root && r.v == ssa.Value(streamP) {
+				lim = call.Call.Args[1]
+			}
+		case "io.CopyN":
+			if r := dv.objectOf(call.Call.Args[1], di.fr); r.fr == dv.root && r.v == ssa.Value(streamP) {
+				lim = call.Call.Args[2]
+			}
+		}
+		if lim == nil {
+			continue
+		}
+		if k, capped := constantAlternative(dv.resolve(lim, di.fr).v, 0); capped {
+			c.R.Violf("F7.cap", fname, "bounded-view", c.IPos(call), "the value read is as long as the file says, whatever that is",
+				fmt.Sprintf("the file is read through a view whose bound can be the constant %d: a value longer than that is cut short (or refused) although it was stored in full", k))
+		} else {
+			c.R.Okf("F7.cap", fname, "bounded-view", c.IPos(call), "the bound of the view on the file is not a constant")
+		}
 	}
 	// a single Read on the file is not a full read: a short count goes unnoticed
 	for _, di := range dv.order {
